@@ -107,8 +107,9 @@ package cache
 // sizes, every stored entry has a metadata record, sizes are not negative.
 //@ spec func specMemInv(c ptr) bool = c.byteSize.val != nil && c.byteSize.val.v == mapsum(c.entries) && len(c.locks) >= 1 && len(c.locks) < 4294967296 && c.entries != nil && (forall k key :: in(c.entries, k) ==> c.entries[k] != nil && allocated(c.entries[k]) && c.entries[k].meta != nil && allocated(c.entries[k].meta) && c.entries[k].meta.Size >= 0)
 
-//@ props C12 C01 C14 C15 C16 C13
+//@ props C12 C01 C14 C15 C16 C13 C09
 //@ func MemoryCache.deleteInternal
+//@   ghost balanced-also C09
 //@   ghost blocks-at 2
 //@   nopanic
 //@   ghost holds shard
@@ -121,8 +122,9 @@ package cache
 //@   ensures [C12] old(mbytes == c.byteSize.val.v) ==> mbytes == c.byteSize.val.v
 //@   ensures [C12] old(mentries == len(c.entries)) ==> mentries == len(c.entries)
 
-//@ props C12 C01 C14 C15 C16 C13
+//@ props C12 C01 C14 C15 C16 C13 C09
 //@ func MemoryCache.Delete
+//@   ghost balanced-also C09
 //@   nopanic
 //@   requires specMemInv(c)
 //@   ensures [C12,C13] specMemInv(c)
@@ -130,8 +132,9 @@ package cache
 //@   ensures [C12] old(mbytes == c.byteSize.val.v) ==> mbytes == c.byteSize.val.v
 //@   ensures [C12] old(mentries == len(c.entries)) ==> mentries == len(c.entries)
 
-//@ props C01 C03 C14 C15 C16
+//@ props C01 C03 C14 C15 C16 C09
 //@ func MemoryCache.Get
+//@   ghost balanced-also C09
 //@   implements Cache.Get
 //@   nopanic
 //@   requires specMemInv(c)
@@ -176,6 +179,9 @@ package cache
 //@   ghost blocks-at 2
 //@   assigns cache.MemoryCache cache.FileCache cache.EntryMetadata cache.memoryInternalEntry map_map_cache.CacheKey atomic.Int64 ghost:mapsum ghost:fsinode ghost:jsize ghost:mbytes ghost:mentries ghost:jexp
 
+// (ghost balanced-also C09: an operation that returns with a lock of the cache still held wedges
+// every later request on it - cache-side trouble that turns good origin answers into timeouts.)
+
 // ---------------------------------------------------------------- memory backend: store
 
 // Storing under a key: on success the entry holds all bytes of the reader, its
@@ -184,6 +190,7 @@ package cache
 // the key was already present (overwrite) and when the source reader fails.
 //@ props C12 C01 C09 C14 C15 C16 C13
 //@ func MemoryCache.cacheInternal
+//@   ghost balanced-also C09
 //@   ghost stable-if mbytes == c.byteSize.val.v
 //@   ghost stable-if mentries == len(c.entries)
 //@   decreases evictIfFull ? 1 : 0
@@ -206,6 +213,7 @@ package cache
 
 //@ props C12 C01 C09 C14 C15 C16 C13
 //@ func MemoryCache.Cache
+//@   ghost balanced-also C09
 //@   implements Cache.Cache
 //@   nopanic
 //@   requires specMemInv(c) && c.janitor != nil && c.maxCacheSize.val != nil
@@ -217,8 +225,9 @@ package cache
 
 // The modifier passed to UpdateMetadata may change the expiry only (every
 // closure passed for it is verified against this frame, see package proxy).
-//@ props C12 C06 C14 C15 C16
+//@ props C12 C06 C14 C15 C16 C09
 //@ func MemoryCache.UpdateMetadata
+//@   ghost balanced-also C09
 //@   implements Cache.UpdateMetadata
 //@   nopanic
 //@   ghost callback modifier assigns EntryMetadata_MetadataT_.Expires
@@ -260,8 +269,9 @@ package cache
 //@   ensures [C12] (result == nil && old(fsexists(sid(path))) ==> mbytes == old(mbytes) - old(fssize(sid(path)))) && (!(result == nil && old(fsexists(sid(path)))) ==> mbytes == old(mbytes))
 //@   ensures [C12] (result == nil && old(fsexists(sid(path))) ==> mentries == old(mentries) - 1) && (!(result == nil && old(fsexists(sid(path)))) ==> mentries == old(mentries))
 
-//@ props C12 C01 C14 C15 C16 C13
+//@ props C12 C01 C14 C15 C16 C13 C09
 //@ func FileCache.ensureRemove
+//@   ghost balanced-also C09
 //@   nopanic
 //@   ghost holds shard
 //@   requires specFileInv(c) && c.byteSize.val.v < 4611686018427387904
@@ -271,8 +281,9 @@ package cache
 //@   ensures [C12] old(mbytes == c.byteSize.val.v) ==> mbytes == c.byteSize.val.v
 //@   ensures [C12] old(mentries == len(c.entriesMetadata)) ==> mentries == len(c.entriesMetadata)
 
-//@ props C12 C01 C14 C15 C16 C13
+//@ props C12 C01 C14 C15 C16 C13 C09
 //@ func FileCache.Delete
+//@   ghost balanced-also C09
 //@   nopanic
 //@   requires specFileInv(c) && c.byteSize.val.v < 4611686018427387904
 //@   ensures [C12,C13] specFileInv(c)
@@ -283,8 +294,9 @@ package cache
 // A handle handed out by Get reads the content the entry's file had at that
 // moment; replacing or removing the entry later does not change what an already
 // opened handle reads (handlecontent is a function of the handle's inode).
-//@ props C01 C03 C14 C15 C16
+//@ props C01 C03 C14 C15 C16 C09
 //@ func FileCache.Get
+//@   ghost balanced-also C09
 //@   implements Cache.Get
 //@   nopanic
 //@   requires specFileInv(c)
@@ -301,6 +313,7 @@ package cache
 // are never written: a store creates a new file and renames it into place.
 //@ props C12 C01 C09 C14 C15 C16 C13
 //@ func FileCache.Cache
+//@   ghost balanced-also C09
 //@   ghost stable-if mbytes == c.byteSize.val.v
 //@   ghost stable-if mentries == len(c.entriesMetadata)
 //@   implements Cache.Cache
@@ -313,8 +326,9 @@ package cache
 //@   ensures [C12] old(mbytes == c.byteSize.val.v) ==> mbytes == c.byteSize.val.v
 //@   ensures [C12] old(mentries == len(c.entriesMetadata)) ==> mentries == len(c.entriesMetadata)
 
-//@ props C12 C06 C14 C15 C16
+//@ props C12 C06 C14 C15 C16 C09
 //@ func FileCache.UpdateMetadata
+//@   ghost balanced-also C09
 //@   implements Cache.UpdateMetadata
 //@   nopanic
 //@   ghost callback modifier assigns EntryMetadata_MetadataT_.Expires
